@@ -348,8 +348,11 @@ def _run(ctx):
         stream_boundary(ctx, pq, root, enums, structs)
         stream_known(ctx, pq, root, enums, structs, specs_names)
         stream_index(ctx, pq, root, enums, structs, specs_names)
+        stream_struct_sizes(ctx, pq, w, enums, structs, specs_names)
         stream_files(ctx, pq)
         stream_edits(ctx, pq)
+        from harness import c10_sizes as Z
+        Z.stream_footer_parse(ctx, pq)
     finally:
         w.close()
         pq.close()
@@ -1076,6 +1079,56 @@ def stream_edits(ctx, pq):
             ctx.fail(cls, {"stream": "edits", "edit_case": case}, "; ".join(problems)[:1500])
 
 
+# ---- wave 3: every struct x serialised sizes on a lattice (harness/c10_sizes.py) -------------------------------------
+
+def stream_struct_sizes(ctx, pq, w, enums, structs, specs_names):
+    """to_bytes / from_buffer / pickle of EVERY struct the serialiser knows, with one payload (top level or nested) sized so
+    that the serialisation has S-1, S, S+1 bytes for S on a lattice of powers of two / round numbers below the 500000-byte buffer"""
+    from harness import c10_sizes as Z
+    names = [n for n in sorted(specs_names) if n in structs and Z.blob_tree(structs, specs_names, n, 0) is not None]
+    ctx.extra["struct_sizes_roots"] = names
+    encs = pq.batch([("thrift_enc", to_tv(Z.blob_tree(structs, specs_names, n, 0))) for n in names])
+    base = {n: len(bytes(e[1])) for n, e in zip(names, encs)}
+    sizes = Z.size_lattice(ctx.quick())
+    small = [s for s in sizes if s <= 2 ** 14 + 2]
+    bigs = [s for s in sizes if s > 2 ** 14 + 2]
+    plan = []
+    for i, n in enumerate(names):
+        mine = list(small) + ([bigs[(2 * i) % len(bigs)], bigs[(2 * i + 1) % len(bigs)]] if (ctx.quick() and bigs) else bigs)
+        for S in mine:
+            # base counts one payload byte-length varint of 1 byte (n = 0)
+            for k in (1, 2, 3, 4):
+                nb = S - base[n] - (k - 1)
+                if nb >= 0 and Z.uleb_len(nb) == k:
+                    plan.append((n, S, nb))
+                    break
+    trees = [Z.blob_tree(structs, specs_names, n, nb) for n, S, nb in plan]
+    wants = pq.batch([("thrift_enc", to_tv(tr)) for tr in trees])
+    for (n, S, nb), tr, e in zip(plan, trees, wants):
+        want = bytes(e[1])
+        case = {"stream": "struct-sizes", "root": n, "payload_bytes": nb, "serialised_size": S}
+        ctx.case(case)
+        ctx.count("struct-sizes.root", n)
+        ctx.count("struct-sizes.size", S)
+        assert len(want) == S, (n, S, len(want))
+        r = w.call("api_roundtrip", to_recipe(tr), 120)
+        cls = {"component": "to_bytes", "stream": "struct-sizes", "root": n, "over": S - CAP}
+        if r[0] != "ok":
+            ctx.fail(dict(cls, kind="crash-or-exception"), case, "to_bytes/from_buffer of a %s of %d bytes: %r" % (n, S, r[:3]))
+            continue
+        b, x, y, eq, cap = r[1]
+        ctx.correspondence("to_bytes(every struct x size lattice) ~ spec encoding thrift_enc (byte-exact)", case,
+                           [len(want), C.sha(want)[:20]], [len(b), C.sha(b)[:20]])
+        if b != want or not eq:
+            ctx.fail(dict(cls, kind="truncated" if len(b) < len(want) else "wrong-bytes"), case,
+                     "%s: to_bytes returned %d bytes, the serialisation has %d; x == from_buffer(to_bytes(x)): %s" % (n, len(b), len(want), eq))
+            continue
+        r2 = w.call("pickle", (n, x), 120)
+        if r2[0] != "ok" or not r2[1][0]:
+            ctx.fail({"component": "pickle", "kind": "not-equal" if r2[0] == "ok" else "crash-or-exception", "stream": "struct-sizes", "root": n},
+                     case, "pickle.loads(pickle.dumps(x)) != x for a %s of %d bytes: %r" % (n, S, r2[:2] if r2[0] != "ok" else "not equal"))
+
+
 # ---------------------------------------------------------------------------------------------------
 
 def replay(rep):
@@ -1119,7 +1172,10 @@ def replay(rep):
             return 1 if problems else 0
         finally:
             shutil.rmtree(tmp, ignore_errors=True)
-    if "tree" not in case:
+    if case.get("stream") == "footer-parse":
+        from harness import c10_sizes as Z
+        return Z.replay_footer_parse(case)
+    if "tree" not in case and case.get("stream") != "struct-sizes":
         print(json.dumps(rep, indent=1)[:6000])
         return 1
     import tempfile
@@ -1127,7 +1183,15 @@ def replay(rep):
     root = C.shadow()
     tmp = tempfile.mkdtemp(prefix="verif-C10-replay-", dir="/tmp")
     try:
-        tr = tree_unjson(case["tree"])
+        if case.get("stream") == "struct-sizes":
+            from harness import c10_sizes as Z
+            enums, structs = T.load_idl()
+            w0 = T.Worker(root, tmp)
+            specs_names = set(call(w0, "specs_names", sorted(structs)))
+            w0.close()
+            tr = Z.blob_tree(structs, specs_names, case["root"], case["payload_bytes"])
+        else:
+            tr = tree_unjson(case["tree"])
         big_stack()
         pq = C.Pqref()
         if case.get("stream") == "foreign":
@@ -1153,6 +1217,10 @@ def replay(rep):
             len(b), b == want, eq, conf))
         pq.close()
         bad = not (eq and conf and b == want)
+        if case.get("stream") == "struct-sizes" and not bad:
+            r2 = one_shot(root, tmp, "pickle", (tr[1], x))
+            print("pickle round trip:", r2[0], r2[1][0] if r2[0] == "ok" else r2[1:3])
+            bad = r2[0] != "ok" or not r2[1][0]
         print("PROPERTY FAILS" if bad else "ok")
         return 1 if bad else 0
     finally:
